@@ -44,6 +44,8 @@ def model_layers(m):
 
 
 def categorize(key, anp):
+    if key.endswith("__training__"):
+        return "mode_flag"
     if key.endswith(("running_mean", "running_var", "num_batches_tracked")):
         return "bn_running"
     for p in anp:
@@ -80,9 +82,14 @@ def make_arg(torch, x, ik):
 
 def full_state(m):
     """Parameters and ALL buffers (persistent or not) - what a call must leave unchanged in eval mode."""
+    import torch
+
     d = {k: v for k, v in m.state_dict().items()}
     for k, v in m.named_buffers():
         d.setdefault(k, v)
+    # the mode flag of every (sub-)module is state as well: a call must leave it as it found it
+    for k, mod in m.named_modules():
+        d[(k + "." if k else "") + "__training__"] = torch.tensor(float(mod.training))
     return d
 
 
@@ -213,6 +220,14 @@ class SessionDriver:
             m.eval()
             self.last = {}
             ev = {"a": "Eval"}
+        elif name == "Freeze":
+            from nflows.transforms.normalization import BatchNorm
+
+            for mod in m.modules():
+                if isinstance(mod, (BatchNorm, torch.nn.modules.batchnorm._BatchNorm)):
+                    mod.eval()
+            self.last = {}
+            ev = {"a": "Freeze"}
         elif name == "TrainStep":
             if self.opt is not None:
                 for p in m.parameters():
@@ -336,7 +351,7 @@ def session_task(task):
 def session_graph(view=True):
     res = T.run_tlc(
         "Session",
-        T.cfg(invariants=["TypeOK"], properties=["EvalIsPure", "OnlyDocumentedWriters", "InverseNeverInitialises", "InitOnce", "ReloadKeepsInit"], view="View" if view else None),
+        T.cfg(invariants=["TypeOK"], properties=["EvalIsPure", "OnlyDocumentedWriters", "FrozenIsPure", "ModesArePreserved", "InverseNeverInitialises", "InitOnce", "ReloadKeepsInit"], view="View" if view else None),
         dot=True,
         name="session",
     )
